@@ -59,8 +59,9 @@ func (wl *WhopLoc) Continue(s *Scope, args List, depth int) Object {
 }
 
 func (wl *WhopLoc) HasNext() bool {
-	for wl.Current++; wl.Current < len(wl.Method.Combinations); wl.Current++ {
-		if wl.Method.Combinations[wl.Current].Wrap != nil {
+	// A query must not move the location.
+	for i := wl.Current + 1; i < len(wl.Method.Combinations); i++ {
+		if wl.Method.Combinations[i].Wrap != nil {
 			return true
 		}
 	}
